@@ -14,6 +14,11 @@ const char *verif_rule =
     "consecutive notifications one is CON; after a deregistration event has been delivered to the server (Observe=1, RST for the latest notification, COAP_OBS_MAX_FAIL+1 consecutive failed CON "
     "notifications, error response sent, resource deleted => one NON 4.04) no new notification is first-transmitted; one notification per change burst and entry (re-registration replaces); "
     "at quiescence the last notification sent to every live entry carries the latest state; the entry survives idle time beyond the session timeout. "
+    "Notifications larger than one block (about 40 % of the cases, parameters from the end of the tape): COAP_BLOCK_USE_LIBCOAP with a maximum block size of 16/32/64, resources whose representation "
+    "(coap_add_data_large_response) is 1+ .. 5 blocks long and differs in every byte range between states; observers that ignore the rest, fetch the next block only, or fetch all following blocks "
+    "(NON or CON, without / with the notification's / with a foreign ETag); all obligations above apply to the first block, and every block on the wire is an exact piece of one state (Block2 number, "
+    "size <= maximum, more flag, length), blocks sharing an ETag come from one state, on a loss-free network a fetching observer obtains every block of the latest representation, the release "
+    "callback runs exactly once per representation. "
     "Non-trivial = >= 2 changes after a registration and a deregistration path or NSTART back-pressure exercised; distinct = by history + wire trace";
 size_t verif_max_tape = 300;
 
@@ -40,6 +45,7 @@ struct ResState {
   unsigned state = 0;
   bool deleted = false;
   bool notify_con = false;
+  size_t big = 0;            // > 0: the representation is this many bytes long and is handed to libcoap with coap_add_data_large_response()
 };
 
 struct Case {
@@ -47,9 +53,30 @@ struct Case {
   std::vector<ResState> res;
   int error_for_obs = -1;   // the GET handler answers 4.04 to this observer's next notification
   int error_res = -1;
+  unsigned large_given = 0, large_released = 0;   // bodies handed to coap_add_data_large_response() / release callbacks seen
 } *G = nullptr;
 
-void get_handler(coap_resource_t *resource, coap_session_t *session, const coap_pdu_t *request, const coap_string_t *, coap_pdu_t *response) {
+// representation of a 'big' resource in a given state: starts like the small one ("<resource>:<state>;") and goes on with bytes that depend on
+// (resource, state, position), so that a block of one state cannot be mistaken for the block of another
+std::vector<uint8_t> big_body(int ri, unsigned state, size_t len) {
+  char b[32];
+  int n = snprintf(b, sizeof b, "%d:%u;", ri, state);
+  std::vector<uint8_t> v(b, b + n);
+  for (size_t i = v.size(); i < len; i++) {
+    uint32_t h = state * 2654435761u + (uint32_t)i * 40503u + (uint32_t)ri * 97u;
+    h ^= h >> 13; h *= 0x5bd1e995u; h ^= h >> 15;
+    v.push_back((uint8_t)(33 + h % 90));
+  }
+  v.resize(len);
+  return v;
+}
+
+void release_body(coap_session_t *, void *app_ptr) {
+  free(app_ptr);
+  if (G) G->large_released++;
+}
+
+void get_handler(coap_resource_t *resource, coap_session_t *session, const coap_pdu_t *request, const coap_string_t *query, coap_pdu_t *response) {
   int ri = -1;
   for (size_t i = 0; i < G->res.size(); i++) if (G->res[i].r == resource) ri = (int)i;
   Addr peer = Addr::from_coap(coap_session_get_addr_remote(session));
@@ -62,6 +89,17 @@ void get_handler(coap_resource_t *resource, coap_session_t *session, const coap_
     return;
   }
   coap_pdu_set_code(response, COAP_RESPONSE_CODE_CONTENT);
+  if (ri >= 0 && G->res[ri].big) {
+    std::vector<uint8_t> body = big_body(ri, G->res[ri].state, G->res[ri].big);
+    uint8_t *copy = (uint8_t *)malloc(body.size());
+    memcpy(copy, body.data(), body.size());
+    G->large_given++;
+    if (!coap_add_data_large_response(resource, session, request, response, query, COAP_MEDIATYPE_TEXT_PLAIN, -1, 0, body.size(), copy, release_body, copy)) {
+      // refused: the release callback has been called by libcoap
+      coap_pdu_set_code(response, COAP_RESPONSE_CODE_INTERNAL_ERROR);
+    }
+    return;
+  }
   char b[32];
   int n = snprintf(b, sizeof b, "%d:%u", ri, ri >= 0 ? G->res[ri].state : 0);
   coap_add_data(response, (size_t)n, (const uint8_t *)b);
@@ -93,6 +131,19 @@ int verif_case(const uint8_t *tape, size_t tlen, Info *info) {
   coap_new_endpoint(ctx, &la, COAP_PROTO_UDP);
   w.add_context(ctx);
   unsigned nres = (unsigned)t.pick({3, 2, 1}) + 1, nobs = (unsigned)t.pick({3, 3, 2, 1}) + 1;
+  // notifications larger than one block: drawn from the END of the tape (backwards), so that the history keeps the front of the tape
+  std::vector<uint8_t> rev(tape, tape + tlen);
+  std::reverse(rev.begin(), rev.end());
+  Tape tb(rev.data(), rev.size());
+  bool block_mode = tb.chance(110);
+  unsigned blk = 16u << tb.pick({3, 2, 1});   // 16 / 32 / 64 byte blocks
+  if (block_mode) {
+    coap_context_set_block_mode(ctx, COAP_BLOCK_USE_LIBCOAP);
+    // (a maximum of 16 cannot be configured: libcoap stores the size exponent and reads 0 as 'not set'; the 16 byte blocks are asked for
+    //  by the observers instead, with a Block2 option in the registration request)
+    if (blk > 16) coap_context_set_max_block_size(ctx, blk);
+    info->label("block-mode");
+  }
   static const char *NAMES[] = {"r0", "r1", "r2"};
   for (unsigned i = 0; i < nres; i++) {
     ResState rs;
@@ -106,10 +157,23 @@ int verif_case(const uint8_t *tape, size_t tlen, Info *info) {
     static const unsigned STARTS[] = {2, 0xFFFFF0, 0xFFFFFB, 0x7FFFF8, 0x0000FFF0};
     size_t sp = t.pick({6, 2, 2, 1, 1});
     rs.r->observe = (STARTS[sp] + (sp ? t.range(0, 15) : 0)) & 0xFFFFFF;
+    if (block_mode && tb.chance(170)) {
+      switch (tb.pick({2, 1, 1, 1, 1, 2})) {
+      case 0: rs.big = blk + 1; break;
+      case 1: rs.big = 2 * blk - 1; break;
+      case 2: rs.big = 2 * blk; break;
+      case 3: rs.big = 2 * blk + 1; break;
+      case 4: rs.big = 3 * blk; break;
+      default: rs.big = tb.range(blk + 1, 5 * blk); break;
+      }
+    }
     cs.res.push_back(rs);
   }
   // ---- scripted observers ----
-  struct ObsPeer { Peer *p; bool rst_next = false; bool withhold_ack = false; };
+  // fetch: what the observer does with a first block that announces more (Block2 M=1): 0 nothing, 1 asks for the following blocks one after the other (NON),
+  // 2 the same with Confirmable requests, 3 asks for the next block only; etag: 0 no ETag in those requests, 1 the ETag of the notification, 2 another one
+  struct ObsPeer { Peer *p; bool rst_next = false; bool withhold_ack = false; unsigned fetch = 0, etag = 0; uint8_t seq = 0;
+                   std::map<std::vector<uint8_t>, std::pair<unsigned, bool>> tok; };   // token -> (resource, query) of the requests this observer sent
   std::vector<ObsPeer> obs(nobs);
   std::vector<Entry> entries;
   std::vector<std::string> history;
@@ -126,17 +190,40 @@ int verif_case(const uint8_t *tape, size_t tlen, Info *info) {
     }
   }
   w.fault = [&](const Datagram &, unsigned idx) { return idx < faults.size() ? faults[idx] : FaultDecision(); };
+  uint16_t next_mid = 0x2000;
   for (unsigned i = 0; i < nobs; i++) {
     obs[i].p = w.add_peer(Addr::v4(10, 0, 3, (uint8_t)(i + 1), (uint16_t)(41000 + i)));
+    obs[i].fetch = block_mode ? (unsigned)tb.pick({2, 4, 2, 1}) : 0;
+    obs[i].etag = (unsigned)tb.pick({5, 1, 1});
     obs[i].p->on_rx = [&, i](World &ww, Peer &p, const Datagram &d) {
       ref::Msg m;
       if (!simh::parse(d.data, &m) || m.code < 64) return;
+      const ref::Opt *b2 = simh::find_opt(m, 23);
+      if (b2 && m.code == 0x45 && obs[i].fetch && obs[i].tok.count(m.token)) {
+        uint32_t bv = simh::opt_uint(b2->val);
+        bool first = simh::find_opt(m, 6) != nullptr || (bv >> 4) == 0;
+        if ((bv & 8) && (obs[i].fetch != 3 || first)) {   // more blocks follow: ask for the next one
+          auto rq = obs[i].tok[m.token];
+          ref::Msg g;
+          g.type = obs[i].fetch == 2 ? 0 : 1;
+          g.code = 1;
+          g.mid = next_mid++;
+          g.token = {(uint8_t)(0xF0 + i), obs[i].seq++};
+          const ref::Opt *et = simh::find_opt(m, 4);
+          if (obs[i].etag == 1 && et) g.opts.push_back(ref::Opt{4, et->val});
+          if (obs[i].etag == 2) g.opts.push_back(ref::Opt{4, {0x7e, 0x7e, (uint8_t)i}});
+          g.opts.push_back(ref::Opt{11, {(uint8_t)'r', (uint8_t)('0' + rq.first)}});
+          if (rq.second) g.opts.push_back(ref::Opt{15, {'q', '=', '1'}});
+          g.opts.push_back(ref::Opt{23, simh::uint_opt((((bv >> 4) + 1) << 4) | (bv & 7))});
+          obs[i].tok[g.token] = rq;
+          ww.peer_send(&p, d.src, ref::encode(g, ref::F_UDP));
+        }
+      }
       bool is_notif = simh::find_opt(m, 6) != nullptr || m.code == 0x84;
       if (obs[i].rst_next && is_notif && (m.type == 0 || m.type == 1)) { obs[i].rst_next = false; ww.peer_send(&p, d.src, simh::rst(m.mid)); return; }
       if (m.type == 0 && !obs[i].withhold_ack) ww.peer_send(&p, d.src, simh::ack(m.mid));
     };
   }
-  uint16_t next_mid = 0x2000;
   auto send_get = [&](unsigned o, unsigned r, const std::vector<uint8_t> &token, bool query, int observe, bool con) {
     ref::Msg m;
     m.type = con ? 0 : 1;
@@ -146,6 +233,8 @@ int verif_case(const uint8_t *tape, size_t tlen, Info *info) {
     if (observe >= 0) m.opts.push_back(ref::Opt{6, observe ? std::vector<uint8_t>{(uint8_t)observe} : std::vector<uint8_t>{}});
     m.opts.push_back(ref::Opt{11, {(uint8_t)'r', (uint8_t)('0' + r)}});
     if (query) m.opts.push_back(ref::Opt{15, {'q', '=', '1'}});
+    if (block_mode && blk == 16 && observe == 0) m.opts.push_back(ref::Opt{23, {}});   // Block2 0/0/16
+    obs[o].tok[token] = {r, query};
     w.peer_send(obs[o].p, srv, ref::encode(m, ref::F_UDP));
   };
   // ---- history ----
@@ -271,6 +360,10 @@ int verif_case(const uint8_t *tape, size_t tlen, Info *info) {
   std::set<std::pair<int, uint16_t>> req_mids;           // (observer, mid) of delivered requests, for recognising NON registration responses
   std::vector<unsigned> cur_state(nres, 0);
   std::vector<bool> deleted(nres, false);
+  std::map<std::tuple<int, int, std::vector<uint8_t>>, std::set<int>> etag_state;   // (observer, resource, ETag) -> states that explain every block seen with it
+  std::map<std::tuple<int, int, std::vector<uint8_t>>, std::set<uint32_t>> etag_blocks;
+  std::map<std::tuple<int, int, bool>, std::vector<uint8_t>> last_notif_etag;        // (observer, resource, query) -> ETag of the latest notification / registration response
+  unsigned big_followups = 0;
   auto ident = [&](const Entry &en) {
     char id[96];
     snprintf(id, sizeof id, "observer %d resource r%d%s token %s", en.obs, en.res, en.query ? "?q=1" : "", hex(en.token, 4).c_str());
@@ -385,6 +478,48 @@ int verif_case(const uint8_t *tape, size_t tlen, Info *info) {
       if (o < 0 || o >= (int)nobs) continue;
       const ref::Opt *ob = simh::find_opt(m, 6);
       auto key = std::make_pair(o, m.mid);
+      // ---- representations larger than one block: every block on the wire is a block of the representation in one state, the blocks that share an
+      //      ETag belong to the same state, Block2 describes the piece exactly (number, size, more flag) ----
+      if (const ref::Opt *b2 = simh::find_opt(m, 23)) {
+        auto tk = obs[o].tok.find(m.token);
+        if (m.code == 0x45 && tk != obs[o].tok.end() && cs.res[tk->second.first].big) {
+          int r = (int)tk->second.first;
+          size_t L = cs.res[r].big;
+          uint32_t bv = simh::opt_uint(b2->val), num = bv >> 4, szx = bv & 7;
+          size_t size = (size_t)16 << szx, off = (size_t)num * size;
+          bool more = bv & 8;
+          if (szx == 7 || size > blk) { info->fail("observer %d r%d: Block2 %u/%d/%zu although the server's maximum block size is %u", o, r, num, more, size, blk); FAIL_IF(1); }
+          if (off >= L || m.payload.size() != std::min(size, L - off) || more != (off + m.payload.size() < L)) {
+            info->fail("observer %d r%d: Block2 %u/%d/%zu with %zu payload bytes does not describe a piece of the %zu byte representation", o, r, num, more, size, m.payload.size(), L);
+            FAIL_IF(1);
+          }
+          // the states whose representation has exactly these bytes at this offset (a short last block may fit several states)
+          std::set<int> fits;
+          for (unsigned s2 = 0; s2 <= cur_state[r]; s2++) {
+            std::vector<uint8_t> b = big_body(r, s2, L);
+            if (std::equal(m.payload.begin(), m.payload.end(), b.begin() + (long)off)) fits.insert((int)s2);
+          }
+          if (fits.empty()) { info->fail("observer %d r%d: block %u (%zu bytes at offset %zu) is not a piece of the representation in any state the resource has had (now %u)", o, r, num, m.payload.size(), off, cur_state[r]); FAIL_IF(1); }
+          if (const ref::Opt *et = simh::find_opt(m, 4)) {
+            auto ek = std::make_tuple(o, r, et->val);
+            auto it = etag_state.find(ek);
+            if (it == etag_state.end()) etag_state[ek] = fits;
+            else {
+              std::set<int> both;
+              for (int x : it->second) if (fits.count(x)) both.insert(x);
+              if (both.empty()) {
+                info->fail("observer %d r%d: block %u with ETag %s is a piece of state %d, the earlier blocks with the same ETag were pieces of state %d: no single state explains them (torn representation)", o, r, num, hex(et->val, 8).c_str(), *fits.begin(), *it->second.begin());
+                FAIL_IF(1);
+              }
+              it->second = both;
+            }
+            etag_blocks[ek].insert(num);
+            if (ob && !(m.type == 0 && con_bytes.count(key) && con_bytes[key] == e.data)) last_notif_etag[{o, r, tk->second.second}] = et->val;   // (not for a retransmission)
+          } else info->label("block-without-etag");   // served by the handler itself (no transfer state at the server): nothing ties it to other blocks
+          info->label(num ? "follow-up-block-served" : (ob ? "notification-with-block2" : "first-block-without-observe"));
+          if (num) big_followups++;
+        }
+      }
       if (m.type == 0) {
         auto it = con_bytes.find(key);
         if (it != con_bytes.end() && it->second == e.data) continue;  // retransmission
@@ -449,6 +584,24 @@ int verif_case(const uint8_t *tape, size_t tlen, Info *info) {
     }
   }
   if (quiet && giveups.empty()) FAIL_IF(!quiet_check(w.trace.size()));
+  // an observer that asks for the following blocks one after the other, on a network that loses nothing, ends up with the complete latest representation
+  if (quiet && giveups.empty() && !use_faults && !w.hit_cap)
+    for (auto &en : entries) {
+      if (en.st != LIVE || deleted[en.res] || !cs.res[en.res].big) continue;
+      const ObsPeer &op = obs[en.obs];
+      if ((op.fetch != 1 && op.fetch != 2) || op.etag != 0) continue;
+      auto le = last_notif_etag.find({en.obs, en.res, en.query});
+      if (le == last_notif_etag.end()) continue;
+      auto ek = std::make_tuple(en.obs, en.res, le->second);
+      size_t size = 0, L = cs.res[en.res].big;
+      (void)size;
+      uint32_t need = (uint32_t)((L + blk - 1) / blk);
+      if (etag_state[ek].count((int)cur_state[en.res]) && etag_blocks[ek].size() < need) {
+        info->fail("%s: loss-free network, the observer asked for every following block, but only %zu of the %u blocks of the latest representation (ETag %s) were served", ident(en).c_str(), etag_blocks[ek].size(), need, hex(le->second, 8).c_str());
+        FAIL_IF(1);
+      }
+      info->label("complete-large-representation-fetched");
+    }
 done:
   for (auto &e : w.trace) if (e.kind == EV_NOTE && e.note.find("CHANGE") == 0) { (void)e; }
   info->nontrivial = changes_after_reg >= 2 && (dereg_path || con_notifs > 0);
@@ -466,6 +619,11 @@ done:
   }
   w.remove_context(ctx);
   coap_free_context(ctx);
+  if (verdict == HELD && cs.large_given != cs.large_released) {
+    info->fail("%u representations were handed to coap_add_data_large_response(), the release callback ran %u times by the time the context was freed", cs.large_given, cs.large_released);
+    verdict = VIOLATION;
+  }
+  if (big_followups) info->label("large-notification-followed-up");
   G = nullptr;
   return verdict;
 }
